@@ -2,7 +2,7 @@
 From Coq Require Import ZArith QArith Qround Qfield List Bool Lia Lqa Permutation.
 From Coq Require Import Floats.PrimFloat.
 From PAFCommon Require Import PyFloat PyNum Lists.
-From PAFC16 Require Import Gen Model.
+From PAFC16 Require Import Gen Lib Model.
 Import ListNotations.
 
 (* ---------- exact arithmetic: the count is n ---------- *)
@@ -194,11 +194,7 @@ Section BuilderProofs.
 End BuilderProofs.
 
 (* Sensitivity: re-sorting after every arrival leaves the results ordered by job number *)
-Inductive sorted_by_number {R} : list (Z * R) -> Prop :=
-| sbn_nil : sorted_by_number []
-| sbn_one x : sorted_by_number [x]
-| sbn_cons x y l : (fst x <= fst y)%Z -> sorted_by_number (y :: l) -> sorted_by_number (x :: y :: l).
-
+(* `sorted_by_number` is defined in Lib.v *)
 Lemma insert_sorted {R} (x : Z * R) (l : list (Z * R)) : sorted_by_number l -> sorted_by_number (insert_by_number x l).
 Proof.
   induction 1 as [|y|y z l Hyz Hs IH]; simpl.
